@@ -6,7 +6,7 @@ import os
 import random
 import time
 
-from . import common, gen, queryfam
+from . import common, gen, queryfam, c10
 
 TRUSTED_BASE = [
     "Lean 4.33.0 kernel (axioms limited to propext, Classical.choice, Quot.sound; audited per theorem on every run)",
@@ -161,7 +161,9 @@ def corpus_batches(prop):
     return batches
 
 
-def mk_query_runner(gen_opts_fn, nquick, nthorough, data=True, stats=False, per_ds=12):
+def mk_query_runner(gen_opts_fn, nquick, nthorough, data=True, stats=False, per_ds=12, runner=None):
+    runner = runner or queryfam.run_batches
+
     def run(ctx, spec, out):
         rng = random.Random(ctx["seed"] * 7919 + hash(ctx["prop"]) % 1000)
         rng = random.Random("%s-%d" % (ctx["prop"], ctx["seed"]))
@@ -169,7 +171,7 @@ def mk_query_runner(gen_opts_fn, nquick, nthorough, data=True, stats=False, per_
         lq = listed_quirks(ctx["prop"])
         cb = corpus_batches(ctx["prop"])
         if cb:
-            queryfam.run_batches(ctx, out.v, cb, lq)
+            runner(ctx, out.v, cb, lq)
         batches = []
         made = 0
         while made < n:
@@ -189,10 +191,10 @@ def mk_query_runner(gen_opts_fn, nquick, nthorough, data=True, stats=False, per_
                 made += 1
             batches.append((ds, qs))
             if len(batches) >= 40:
-                queryfam.run_batches(ctx, out.v, batches, lq)
+                runner(ctx, out.v, batches, lq)
                 batches = []
         if batches:
-            queryfam.run_batches(ctx, out.v, batches, lq)
+            runner(ctx, out.v, batches, lq)
     return run
 
 
@@ -231,6 +233,10 @@ def c08_opts(rng):
 def c04_opts(rng):
     return ({"states": True, "nbackends": [1, 2, 3, 4, 5]}, {"depth": [0, 1], "nfilters": [0, 0, 1], "backends": 0.8, "formats": ["json", "wrapped_json", "wrapped_json"],
             "tables": ["hosts", "services", "hostgroups", "comments", "contacts", "hostsbygroup", "sites", "backends"]})
+
+
+def c17_opts(rng):
+    return ({}, {"depth": [0, 1, 2, 3], "both_modes": True, "sort": 0.4, "limit": 0.3, "offset": 0.2, "authuser": 0.1, "index_p": 0.2})
 
 
 QUERY_ASSUMPTIONS = ["strings inside the declared alphabet (ASCII + Latin-1 letters)", "regular expressions inside the reference subset; others are reported unsupported and not compared",
@@ -276,6 +282,23 @@ REGISTRY = {
         "rule": "contact graphs generated as relations over hosts/services/groups, 2x2 authorisation settings, AuthUser on ten contact-bearing tables, data and Stats queries with extra filters",
         "correspondence": "Lmd.checkAuth vs DataRow.checkAuth",
         "assumptions": QUERY_ASSUMPTIONS,
+    },
+    "C17": {
+        "lean_modules": ["C17"],
+        "run": mk_query_runner(c17_opts, 500, 10000, data=True, stats=True, runner=queryfam.run_reprint_batches),
+        "rule": "every generated request (filters of every operator x column type, nested negated groups, Stats counters/aggregates, Sort incl. custom variables, Limit/Offset, AuthUser; both parse modes) is parsed by the implementation, "
+                "serialised with Request.String(), re-parsed and evaluated; the answer must satisfy the specification of the original request",
+        "correspondence": "Lmd.printRequest vs Request.String (exact text), Lmd.parseRequest vs NewRequest",
+        "assumptions": QUERY_ASSUMPTIONS,
+    },
+    "C10": {
+        "lean_modules": ["C10"],
+        "run": c10.run,
+        "rule": "importer-loaded datasets whose strings contain quotes, backslashes, control bytes, U+2028, emoji, 3000 byte values, custom variables with missing values x data and Stats requests "
+                "(unknown/duplicate columns, no Columns header, ColumnHeaders, both formats, fixed16 on/off): the bytes of Response.send are parsed with a strict JSON parser, shape- and width-checked, the header compared with Lmd.fixed16Header; "
+                "plus unix-socket sessions of 1-6 requests with KeepAlive on/off and an unparsable request at a random position, compared bytewise with the composition given by Lmd.sessionPlan; non-trivial = a session of at least two requests or a data/stats case as in C01",
+        "correspondence": "Lmd.fixed16Header / Lmd.sessionPlan / Lmd.cellJson vs Response.send / ClientConnection.answer / DataRow.WriteJSON*",
+        "assumptions": QUERY_ASSUMPTIONS + ["jsoniter's scalar encoder is an oracle checked by the strict parser, not modelled"],
     },
     "C04": {
         "lean_modules": ["C04"],
